@@ -3,10 +3,11 @@
    every primitive modelled, Option, Result, tuples of arity 1..8, Vec / slice / LinkedList /
    HashSet / BTreeSet / [T; N] for every N, byte containers, maps, Box/Rc/Arc/&, PhantomData,
    nested to any depth.  `v` ranges over all values the Rust type can hold (wf_val).
-   Primitives include the chrono codecs (features/chrono.rs) and the two public var-int writers.
-   Not yet in the model (stated in MANIFEST): the BigDecimal codec. *)
+   Primitives include the chrono codecs (features/chrono.rs), BigInt and BigDecimal
+   (features/bigdecimal.rs; BigDec.v transcribes the decimal text the bigdecimal crate renders and
+   parses) and the two public var-int writers. *)
 From Coq Require Import NArith ZArith List.
-From Desert Require Import Outcome IO Types Calendar Codec CodecB CodecWf CodecRt2 PropLemmas.
+From Desert Require Import Outcome IO Types Calendar BigDec BigDecLemmas Codec CodecB CodecWf CodecRt2 PropLemmas Inject.
 Import ListNotations.
 Open Scope N_scope.
 
@@ -103,6 +104,45 @@ Example C01_chrono_rejects :
   dec_prim a_ops PTz (mkA (1 :: 28 :: removelast ex_budapest) [] []) = Err EDeserializationFailure.
 Proof. vm_compute. repeat split. Qed.
 
+(* BigDecimal = (unscaled integer, i64 scale), value unscaled * 10^(-scale).  The wire carries the decimal
+   text of to_string(); parsing it back gives, for EVERY integer and EVERY i64 scale, the representative
+   bd_norm of the value: the same pair, except that a scale in -15..-1 comes back as scale 0 with the
+   zeros multiplied in (the text prints such integers in full).  bd_norm preserves the numeric value, which is
+   what Rust's equality on BigDecimal compares; wf_prim_val PBigDecimal = "is its own representative", so
+   C01_roundtrip covers BigDecimal at any nesting, and this is the statement for the remaining values. *)
+Theorem C01_bigdecimal_text : forall i s,
+  is_i64 s = true ->
+  bd_parse (bd_render i s) = Some (bd_norm (i, s)) /\ bd_numeq (bd_norm (i, s)) (i, s) /\
+  bd_normal (fst (bd_norm (i, s))) (snd (bd_norm (i, s))) = true.
+Proof.
+  intros i s H. split; [exact (bd_parse_render i s H)|]. split; [exact (bd_norm_numeq (i, s)) | exact (bd_norm_normal i s H)].
+Qed.
+
+(* 1.2345, 0.00000123 (plain), 1.23E-7 (more than five leading zeros), 1e+16 (more than 15 padded zeros),
+   -50 from (-5, -1), both ends of the scale *)
+Example C01_bigdecimal_values :
+  prim_rt PBigDecimal (VNode 0 [VZ 12345; VZ 4]) [12; 49; 46; 50; 51; 52; 53] /\
+  prim_rt PBigDecimal (VNode 0 [VZ 123; VZ 8]) [20; 48; 46; 48; 48; 48; 48; 48; 49; 50; 51] /\
+  prim_rt PBigDecimal (VNode 0 [VZ 123; VZ 9]) [14; 49; 46; 50; 51; 69; 45; 55] /\
+  prim_rt PBigDecimal (VNode 0 [VZ 1; VZ (-16)]) [10; 49; 101; 43; 49; 54] /\
+  wf_prim_val PBigDecimal (VNode 0 [VZ (-5); VZ (-1)]) = false /\
+  enc_prim PBigDecimal (VNode 0 [VZ (-5); VZ (-1)]) [] = Ok ([6; 45; 53; 48], []) /\
+  dec_prim a_ops PBigDecimal (mkA [6; 45; 53; 48] [] []) = Ok (VNode 0 [VZ (-50); VZ 0], mkA [] [] []) /\
+  wf_prim_val PBigDecimal (VNode 0 [VZ 1; VZ (- 2 ^ 63)]) = true /\
+  wf_prim_val PBigDecimal (VNode 0 [VZ 999; VZ (2 ^ 63 - 1)]) = true /\
+  wf_prim_val PBigDecimal (VNode 0 [VZ 1; VZ (2 ^ 63)]) = false /\
+  (* what the parser refuses: "1e", "--1", "1_", is fine: "1_" = 1 *)
+  dec_prim a_ops PBigDecimal (mkA [4; 49; 101] [] []) = Err EDeserializationFailure /\
+  dec_prim a_ops PBigDecimal (mkA [6; 45; 45; 49] [] []) = Err EDeserializationFailure /\
+  dec_prim a_ops PBigDecimal (mkA [4; 49; 95] [] []) = Ok (VNode 0 [VZ 1; VZ 0], mkA [] [] []).
+Proof. vm_compute. repeat split. Qed.
+
+(* the encoder is injective on the values of a declaration-free type: different values never share an encoding *)
+Theorem C01_injective : forall f t v v' st b st1 st2,
+  wf_ty [] t = true -> wf_val f [] t v = true -> wf_val f [] t v' = true ->
+  enc f [] t v st = Ok (b, st1) -> enc f [] t v' st = Ok (b, st2) -> v = v'.
+Proof. exact enc_injective_builtin. Qed.
+
 Example calendar_range :
   ndt_secs min_year 1 1 0 0 0 = min_ts /\ ndt_secs max_year 12 31 23 59 59 = max_ts.
 Proof. vm_compute. split; reflexivity. Qed.
@@ -110,3 +150,6 @@ Proof. vm_compute. split; reflexivity. Qed.
 Print Assumptions C01_roundtrip.
 Print Assumptions C01_roundtrip_impl.
 Print Assumptions C01_chrono_values.
+Print Assumptions C01_bigdecimal_text.
+Print Assumptions C01_bigdecimal_values.
+Print Assumptions C01_injective.
